@@ -6,6 +6,8 @@ return exactly the class's token set (set equality of (path, region)).
 """
 import os
 
+from hypothesis import strategies as st
+
 from vlib import core, fsmodel, projgen
 
 PID = "C02"
@@ -23,12 +25,68 @@ ASSUMPTIONS = [
 BUDGET = {"quick": (640, 240), "thorough": (12000, 2700)}
 
 
+@st.composite
+def kwargs_scenarios(draw):
+    """shape G-PROJ does not produce: keywords swallowed by **kwargs are dictionary keys, not occurrences of a visible variable
+    of the same name.  The expected occurrence sets are written down here, token by token."""
+    var = draw(st.sampled_from(["timeout", "retries"]))
+    cfg = "def make(**options):\n    return sorted(options.items())\n"
+    main = "from cfg import make\ntimeout = 30\nretries = 3\nprint(make(%s=%s * 2, other=retries))\nprint(timeout + retries)\n" % (var, var)
+    import re
+
+    expected = {}
+    for name in ("timeout", "retries"):
+        offs = [m.start() for m in re.finditer(r"\b%s\b" % name, main)]
+        if name == var:
+            kw = main.index("make(" + var + "=") + 5
+            offs = [o for o in offs if o != kw]
+        expected[name] = [["main.py", o] for o in offs]
+    return {"scenario": "kwargs_keyword", "files": {"cfg.py": cfg, "main.py": main}, "expected": expected}
+
+
 def strategy(tier):
-    return projgen.projects()
+    return st.one_of(*([projgen.projects()] * 15 + [kwargs_scenarios()]))
 
 
 def describe(case):
+    if case.get("scenario"):
+        return {"scenario": case["scenario"], "files": case["files"]}
     return {"files": {p: s[:300] for p, s in list(case["files"].items())[:3]}, "flags": case["flags"]}
+
+
+def _evaluate_scenario(case, env):
+    from rope.base import exceptions as rex
+    from rope.base.project import Project
+    from rope.contrib import findit
+
+    out = core.Outcome()
+    root = core.fresh_dir("c02s")
+    fsmodel.write_tree(root, case["files"])
+    project = Project(root, ropefolder=None)
+    try:
+        for name, toks in sorted(case["expected"].items()):
+            want = sorted((p_, o_) for p_, o_ in toks)
+            for p_, o_ in toks:
+                out.evals += 1
+                out.labels["scenario:" + case["scenario"]] += 1
+                try:
+                    got = sorted((l.resource.path, l.region[0]) for l in findit.find_occurrences(project, project.get_file(p_), o_))
+                except rex.RopeError:
+                    out.refused += 1
+                    continue
+                if got != want:
+                    out.violation(
+                        "C02:scenario:%s" % case["scenario"],
+                        "query %s:%d (%r): expected %s, got %s\n%s" % (p_, o_, name, want, got, case["files"][p_]),
+                        {"path": p_, "offset": o_},
+                    )
+                    return out
+            if len(toks) >= 2:
+                out.nontrivial.add("s:" + name)
+    finally:
+        project.close()
+        core.rmtree(root)
+    return out
 
 
 def class_tokens(case):
@@ -65,6 +123,8 @@ def evaluate(case, env):
     from rope.base import exceptions as rex
     from rope.contrib import findit
 
+    if case.get("scenario"):
+        return _evaluate_scenario(case, env)
     out = core.Outcome()
     by = class_tokens(case)
     names = {}
